@@ -126,6 +126,10 @@ namespace pika::threads::detail {
                 if (PIKA_LIKELY(current_state_.compare_exchange_strong(
                         tmp, thread_state(state, state_ex, tag), exchange_order)))
                 {
+#if defined(PIKA_VERIF)
+                    PIKA_VERIF_POINT(101, this, static_cast<std::uint64_t>(prev_state.verif_raw()),
+                        static_cast<std::uint64_t>(thread_state(state, state_ex, tag).verif_raw()));
+#endif
                     return prev_state;
                 }
 
@@ -140,7 +144,16 @@ namespace pika::threads::detail {
             new_tagged_state = thread_state(newstate, prev_state.state_ex(), prev_state.tag() + 1);
 
             thread_state tmp = prev_state;
+#if defined(PIKA_VERIF)
+            bool const verif_ok =
+                current_state_.compare_exchange_strong(tmp, new_tagged_state, exchange_order);
+            if (verif_ok)
+                PIKA_VERIF_POINT(102, this, static_cast<std::uint64_t>(prev_state.verif_raw()),
+                    static_cast<std::uint64_t>(new_tagged_state.verif_raw()));
+            return verif_ok;
+#else
             return current_state_.compare_exchange_strong(tmp, new_tagged_state, exchange_order);
+#endif
         }
 
         /// The restore_state function changes the state of this thread
@@ -181,7 +194,17 @@ namespace pika::threads::detail {
             thread_state old_tmp(old_state.state(), state_ex, old_state.tag());
             thread_state new_tmp(new_state.state(), state_ex, tag);
 
+#if defined(PIKA_VERIF)
+            thread_state const verif_old = old_tmp;
+            bool const verif_ok =
+                current_state_.compare_exchange_strong(old_tmp, new_tmp, load_exchange);
+            if (verif_ok)
+                PIKA_VERIF_POINT(103, this, static_cast<std::uint64_t>(verif_old.verif_raw()),
+                    static_cast<std::uint64_t>(new_tmp.verif_raw()));
+            return verif_ok;
+#else
             return current_state_.compare_exchange_strong(old_tmp, new_tmp, load_exchange);
+#endif
         }
 
         bool restore_state(thread_schedule_state new_state, thread_restart_state state_ex,
@@ -192,8 +215,18 @@ namespace pika::threads::detail {
             std::int64_t tag = old_state.tag();
             if (new_state != old_state.state()) ++tag;
 
+#if defined(PIKA_VERIF)
+            thread_state const verif_old = old_state;
+            bool const verif_ok = current_state_.compare_exchange_strong(
+                old_state, thread_state(new_state, state_ex, tag), load_exchange);
+            if (verif_ok)
+                PIKA_VERIF_POINT(104, this, static_cast<std::uint64_t>(verif_old.verif_raw()),
+                    static_cast<std::uint64_t>(thread_state(new_state, state_ex, tag).verif_raw()));
+            return verif_ok;
+#else
             return current_state_.compare_exchange_strong(
                 old_state, thread_state(new_state, state_ex, tag), load_exchange);
+#endif
         }
 
     protected:
